@@ -30,7 +30,7 @@ import contextlib
 
 from hypothesis import strategies as st
 
-from vlib.core import HarnessError, Soft, Sub
+from vlib.core import HarnessError, Soft, Sub, exception_site
 
 PROPERTY_ID = "C18"
 LEVEL = "exploration"
@@ -135,7 +135,8 @@ class Model:
     # -- score of one path: list of (state, i, j) after emission
     def score_path(self, path, local):
         if not path:
-            return NEG
+            # the empty path exists only between two sub-alignments that can both be skipped entirely (START -> END edges)
+            return NEG if local else self.logT[0][self.END]
         tot = 0.0
         prev = 0
         for st_, i, j in path:
@@ -1206,7 +1207,7 @@ def _opts_run(s, sig, case, limit):
                 # Alignment.distance_matrix documents ArithmeticError when a distance cannot be computed: no guide tree
                 if estimated and "pairwise distances" in str(res):
                     return "no-guide-tree"
-                s.fail(f"{sig}/tree_align/raises:ArithmeticError", f"{res}"[:300])
+                s.fail(f"{sig}/tree_align/raises:ArithmeticError@{exception_site(res)}", f"{res}"[:300])
             return None
         if not s.check(isinstance(res, tuple) and len(res) == 2, f"{sig}/returns-alignment-and-tree", f"got {res!r}"[:300]):
             return None
